@@ -949,58 +949,42 @@ Proof.
     exfalso. apply find_some in F as [I E]. apply N.eqb_eq in E. apply NI. left. apply in_map_iff. exists p. split; assumption.
 Qed.
 
-(* Outside the known-finding class the index resolves every live row id to its address and no dead id,
+(* With monotone live ids the (unmerged) range lookup resolves every live row id to its address and no dead id,
    however the stored sequences are cut into segments *)
 Theorem index_resolves m chunks :
-  Known_C18_rowid_index_overlapping_ranges m = false -> is_segmentation chunks (live_rows m) = true ->
+  ids_non_monotone m = false -> is_segmentation chunks (live_rows m) = true ->
   (forall rid addr, In (rid, addr) (live_rows m) -> index_get chunks rid = Some addr)
   /\ (forall rid, ~ In rid (live_ids m) -> index_get chunks rid = None).
 Proof.
-  unfold Known_C18_rowid_index_overlapping_ranges, is_segmentation. intros K SG. apply negb_false_iff in K.
+  unfold ids_non_monotone, is_segmentation. intros K SG. apply negb_false_iff in K.
   apply andb_true_iff in SG as [EQ NE]. apply pair_list_eqb_eq in EQ. unfold live_ids in *. rewrite <- EQ in *.
   apply index_get_chunks; [apply strict_sorted_SS; exact K|].
   intros c I E. subst c. rewrite forallb_forall in NE. specialize (NE [] I). discriminate.
 Qed.
 
-(* F18 on the model: fragment 0 keeps ids {0,2,3} (row 1 was updated: deleted here, its id carried into
-   fragment 1); the chunk of fragment 0 spans 0..3 and swallows the lookup of id 1 *)
+(* the F18 shape: fragment 0 keeps ids {0,2,3} (row 1 was updated: deleted here, its id carried into fragment 1) *)
 Definition f18_manifest : Manifest :=
   mkManifest 3 [0%Z]
     [mkFragment 0 (Some 4) [mkDataFile 0 [0%Z] (2, 0) 4] (Some (mkDeletionFile 0 (Some 1) [1])) (Some [0; 1; 2; 3]) None None;
      mkFragment 1 (Some 1) [mkDataFile 1 [0%Z] (2, 0) 1] None (Some [1]) None None]
     (Some 1) (Some 4) V2_0 [].
-Lemma overlapping_ranges_refuted :
-  wf_manifest f18_manifest = true /\ ids_inv f18_manifest = true
-  /\ Known_C18_rowid_index_overlapping_ranges f18_manifest = true
+(* without merging, the chunk of fragment 0 spans 0..3 and swallows the lookup of id 1: this is why
+   index_resolves needs monotone ids (or merged chunks) *)
+Lemma unmerged_lookup_counterexample :
+  wf_manifest f18_manifest = true /\ ids_inv f18_manifest = true /\ ids_non_monotone f18_manifest = true
   /\ exists chunks, is_segmentation chunks (live_rows f18_manifest) = true
        /\ In (1, row_address 1 0) (live_rows f18_manifest) /\ index_get chunks 1 = None.
 Proof.
   vm_compute. repeat split; try reflexivity.
   exists [[(0, 0); (2, 2); (3, 3)]; [(1, 4294967296)]]. vm_compute. repeat split; try reflexivity. right. right. right. left. reflexivity.
 Qed.
-
-(* compaction through the whole commit path *)
-Theorem commit_rewrite_keeps latest groups ri fri us sf m' n :
-  wf_manifest latest = true -> m_next_row_id latest = Some n ->
-  op_ok true (Some latest) (Rewrite groups ri fri) = true -> op_ids_ok latest (Rewrite groups ri fri) = true ->
-  commit_step latest (Rewrite groups ri fri) us sf = Ok m' ->
-  forall x, In x (live_ids latest) -> In x (live_ids m').
-Proof.
-  unfold commit_step. intros W EN OK OI H. destruct (negb (validate_operation (Some latest) (Rewrite groups ri fri))); [discriminate|].
-  bind_as H m1 EB. bind_as H m2 EF.
-  assert (US : uses_stable latest = true) by (unfold uses_stable; rewrite EN; reflexivity).
-  assert (OK' : op_ok (table_stable (Some latest) (mkConfig us sf)) (Some latest) (Rewrite groups ri fri) = true) by (cbn [table_stable]; rewrite US; exact OK).
-  pose proof (build_manifest_wf (Some latest) _ _ m1 W OK' EB) as W1.
-  rewrite (fix_schema_id _ W1) in EF. inversion EF; subst m2. destruct (check_storage_ids _ _ H) as [F1 _].
-  unfold build_manifest in EB. destruct (cfg_stable (mkConfig us sf) && _); [discriminate|].
-  bind_as EB schema ES. bind_as EB nri ENR. bind_as EB r EA. destruct r as [[final idx] nri'].
-  assert (nri = Some n) by (unfold start_next_row_id in ENR; rewrite EN in ENR; destruct (cfg_stable (mkConfig us sf)); inversion ENR; reflexivity). subst nri.
-  destruct (finish_shape _ _ _ _ _ _ _ _ EB) as [EFR _]. cbn zeta in EFR.
-  intros x I. rewrite live_ids_eq in *. rewrite F1, EFR.
-  rewrite (proj2 (ids_by_view _ _ (remove_tombstoned_iv (sort_frags final)))).
-  eapply Permutation_in; [apply Permutation_sym; apply (flat_map_perm live_ids_of); apply sort_frags_perm|].
-  exact (rewrite_keeps latest groups ri fri (mkConfig us sf) schema n final idx nri' W EN OK OI EA x I).
-Qed.
+(* regression for the repaired F18 (repo commit ac0e2db): on the same manifest the specification resolves every
+   live id, and so does the lookup over the MERGED chunk (what RowIdIndex::new builds for overlapping ranges) *)
+Lemma f18_regression :
+  map (resolve f18_manifest) [0; 1; 2; 3; 4] = [Some 0; Some (row_address 1 0); Some 2; Some 3; None]
+  /\ map (index_get [[(0, 0); (1, row_address 1 0); (2, 2); (3, 3)]]) [0; 1; 2; 3; 4]
+     = [Some 0; Some (row_address 1 0); Some 2; Some 3; None].
+Proof. vm_compute. split; reflexivity. Qed.
 
 (* ================================================================ the fragment-id keyed cache of row id sequences *)
 Lemma cached_ids_ok warm m :
